@@ -3,7 +3,7 @@
 //! Recognised grammar (one targeted lookup each; every lookup must succeed exactly once)
 //!   devicecode.rs  fn default_devicecode_interval() -> u64 { <int> }
 //!                  const DEFAULT_MAX_BACKOFF_INTERVAL: Duration = Duration::from_secs(<int>);
-//!                  process_response: arm `..::SlowDown => ..( <lhs> <op> Duration::from_secs(<int>) )..`
+//!                  process_response: arm `..::SlowDown => ..( <lhs> <op> Duration::from_secs(<int>) | <lhs>.<x>_add(Duration::from_secs(<int>)) )..`
 //!                  DeviceAccessTokenRequest::{request, request_async}: `if <lhs> <op> timeout_dt { .. }`
 //!   types.rs       PkceCodeChallenge::new_random_len: assert!((<int> ..=|.. <int>).contains(<subject>))
 //!                  PkceCodeChallenge::from_code_verifier_{sha256,plain}:
@@ -119,6 +119,15 @@ impl<'ast> Visit<'ast> for SlowDown {
                         self.0.push((canon(&b.right), canon(&b.op), n));
                     }
                     syn::visit::visit_expr_binary(self, b);
+                }
+                fn visit_expr_method_call(&mut self, m: &'ast syn::ExprMethodCall) {
+                    // <lhs>.saturating_add(Duration::from_secs(n)) / .checked_add(..) / .wrapping_add(..)
+                    if m.args.len() == 1 && m.method.to_string().ends_with("_add") {
+                        if let Some(n) = from_secs(&m.args[0]) {
+                            self.0.push((canon(&m.receiver), m.method.to_string(), n));
+                        }
+                    }
+                    syn::visit::visit_expr_method_call(self, m);
                 }
             }
             B(&mut self.hits).visit_expr(&a.body);
@@ -255,7 +264,7 @@ pub fn extract(srcs: &Sources, inv: &Inv) -> R<String> {
             return fail(
                 "devicecode.rs",
                 "DeviceAccessTokenRequest::process_response",
-                format!("exactly one `<interval> <op> Duration::from_secs(<int>)` in the `SlowDown` arm, found {}", sd.hits.len()),
+                format!("exactly one `<interval> <op> Duration::from_secs(<int>)` or `<interval>.<x>_add(Duration::from_secs(<int>))` in the `SlowDown` arm, found {}", sd.hits.len()),
             )
         }
     };
@@ -423,7 +432,7 @@ pub fn extract(srcs: &Sources, inv: &Inv) -> R<String> {
     o.push_str(&format!("/-- `fn default_devicecode_interval() -> u64` (src/devicecode.rs) -/\ndef defaultDevicecodeInterval : Nat := {ddi}\n\n"));
     o.push_str(&format!("/-- `const DEFAULT_MAX_BACKOFF_INTERVAL = Duration::from_secs(_)` in process_response -/\ndef defaultMaxBackoffSecs : Nat := {backoff}\n\n"));
     o.push_str(&format!(
-        "/-- the `SlowDown` arm of process_response: `<lhs> <op> Duration::from_secs(<secs>)` -/\ndef slowDownLhs : String := {}\ndef slowDownOp : String := {}\ndef slowDownIncrementSecs : Nat := {sd_n}\n\n",
+        "/-- the `SlowDown` arm of process_response: `<lhs> <op> Duration::from_secs(<secs>)`, or `<lhs>.<op>(Duration::from_secs(<secs>))` with op a method such as `saturating_add` -/\ndef slowDownLhs : String := {}\ndef slowDownOp : String := {}\ndef slowDownIncrementSecs : Nat := {sd_n}\n\n",
         s(&sd_lhs),
         s(&sd_op)
     ));
